@@ -35,12 +35,15 @@ THEOREMS = {
                                          "Tr.revScanList_RC", "Tr.revStep_RC", "Tr.init_RC", "Tr.RW_dataset", "Tr.revIndex_spec",
                                          "Tr.calculateAllNodes_no_exception", "Tr.reverseNode_no_exception", "Tr.reconLoop_terminates", "Tr.optimizeJourney_terminates'", "Tr.applyFound_shape",
                                          "Tr.nv_hypotheses", "Tr.nv_hypotheses_complete", "Tr.nv_hypotheses_reverse", "Tr.nv_nonneg", "Tr.nv_results"]),
-    "C10": ("TrVerif.Props.NonVacuity", ["Tr.C10_alternatives", "Tr.C10_no_better_forward", "Tr.C10_no_better_reverse", "Tr.C10_alt_times", "Tr.alternatives_from", "Tr.altLoop_from",
+    "C10": ("TrVerif.Props.NonVacuity", ["Tr.C10_alternatives", "Tr.C10_no_better_forward", "Tr.C10_no_better_reverse", "Tr.C10_alt_times", "Tr.C10_alt_limits", "Tr.C10_alt_first_wait", "Tr.C10_alt_totals", "Tr.alternatives_from", "Tr.altLoop_from",
                                          "Tr.calcWith_attained_fwd", "Tr.calcWith_attained_rev", "Tr.AdmFwd.ctxLe", "Tr.AdmRev.ctxLe", "Tr.C03_optimal", "Tr.C04_optimal", "Tr.C01_with",
                                          "Tr.nv_hypotheses", "Tr.nv_hypotheses_complete", "Tr.nv_results"]),
     "C11": ("TrVerif.Props.C11", ["Tr.C11_connSet", "Tr.C11_restrict", "Tr.C11_answers", "Tr.C11_route"]),
-    "C12": ("TrVerif.Props.C12", ["Tr.C12_index_transparent_route", "Tr.C12_index_transparent_accessibility", "Tr.fwdScan_from_start", "Tr.revScan_from_start",
-                                  "Tr.singleReverse_eq0", "Tr.before_start_early", "Tr.before_start_late", "Tr.fwdIndex_spec", "Tr.revIndex_spec", "Tr.C18_index_safe", "Tr.C07_scan_start"]),
+    "C12": ("TrVerif.Props.NonVacuity", ["Tr.C12_index_transparent_route", "Tr.C12_index_transparent_accessibility", "Tr.fwdScan_from_start", "Tr.revScan_from_start",
+                                  "Tr.singleReverse_eq0", "Tr.before_start_early", "Tr.before_start_late", "Tr.fwdIndex_spec", "Tr.revIndex_spec", "Tr.C18_index_safe", "Tr.C07_scan_start",
+                                  "Tr.C12_departure", "Tr.C12_arrival", "Tr.C12_map_departure", "Tr.C12_map_arrival", "Tr.C12_departure_query", "Tr.C12_arrival_query",
+                                  "Tr.C12_accessibility_departure", "Tr.C12_accessibility_arrival", "Tr.AdmFwd.shift", "Tr.AdmRev.shift", "Tr.Reach.shift", "Tr.RReach.shift",
+                                  "Tr.conns_shift", "Tr.wfData_shift", "Tr.nv_shift", "Tr.nv_shift_maps", "Tr.nv_results"]),
     "C16": ("TrVerif.Props.C16", ["Tr.C16_connections", "Tr.C16_reverse_footpaths", "Tr.C16_sorted_lists", "Tr.C16_trip_lists", "Tr.C16_scenario_set"]),
     "C13": ("TrVerif.Props.C13", ["Tr.C13_history_independent", "Tr.C13_cache_kind_irrelevant", "Tr.C13_structure"]),
     "C14": ("TrVerif.Props.C14", ["Tr.C14_interleavings", "Tr.C14_progress", "Tr.C14_structure"]),
@@ -148,29 +151,35 @@ _reg("C09", "PROOF (full, over the model, on the property's own domain - in fact
      "`exception` outcome: the reconstruction chain and the clean-up loop end, the last stop is one the router offers, no index is read out of bounds - is Tr.calculateAllNodes_no_exception "
      "(Tr.reverseNode_no_exception; the clean-up runs here on a journey without access step: Tr.applyFound_shape, Tr.optimizeJourney_terminates'; needs arrival times >= 0). " + _M + "; the brute-force reference solver is still run on every answer.",
      "Lean 4 theorems (soundness + completeness invariants of the reverse scan, hour-index transparency) + differential correspondence + reference solver")
-_reg("C10", "PROOF (over the model; clause (c) partly): Tr.C10_alternatives - (a) same success/failure and reason as without alternatives, (b) routes[0] is the plain answer, (d) pairwise distinct "
+_reg("C10", "PROOF (full over the model; clause (e) on the domains of C03 / C04 as the property says): Tr.C10_alternatives - (a) same success/failure and reason as without alternatives, (b) routes[0] is the plain answer, (d) pairwise distinct "
      "sorted line lists, (f) at most 50 routes and totalRoutesCalculated >= their number, for ALL datasets and queries. (e) Tr.C10_no_better_forward / Tr.C10_no_better_reverse - on the domains of "
      "C03 / C04 no route of the answer arrives earlier / departs later than routes[0]: every further route is the answer of a recalculation with more excluded lines and the reduced max_travel_time "
      "(Tr.alternatives_from, loop invariant Tr.altLoop_from), hence an admissible journey of that recalculation (attainment, Tr.calcWith_attained_*), hence - excluding fewer lines and allowing a longer "
      "journey keeps it admissible (Tr.AdmFwd.ctxLe / Tr.AdmRev.ctxLe) - an admissible journey of the original query, which routes[0] is optimal among (Tr.C03_optimal / Tr.C04_optimal). "
      "(c) Tr.C01_with - every further route is a ValidItinerary; Tr.C10_alt_times - every route keeps the ORIGINAL query's time limits (not before the requested departure, within max_travel_time "
      "of it / not after the requested arrival, within max_travel_time before it, not before 0:00) although it was calculated with another max_travel_time; C06 holds of every emitted route value "
-     "(Tr.C06_totals). NOT a theorem: the walk maxima and the first-waiting cap of C02 for the further routes (same parameters as the original query in every recalculation; checked on every "
-     "answer by the oracle). " + _M + ".",
+     "(Tr.C06_totals). Tr.C10_alt_limits - every route rides only hops of the scenario's connection set, walks what the router offers within the access / egress maxima and makes no transfer walk "
+     "beyond the transfer maximum; Tr.C10_alt_first_wait - the first-waiting clause of C02; Tr.C10_alt_totals - all identities of C06. " + _M + ".",
      "Lean 4 theorems (loop invariants, attainment + monotonicity of admissibility, optimality of routes[0]) + differential correspondence + executable oracle")
 _reg("C11", "PROOF (full, over the model): Tr.C11_answers / Tr.C11_route - route, alternatives and accessibility answers under a restricting scenario equal the answers "
      "under the all-inclusive scenario on the dataset with the excluded trips removed (filter commutes with both stable sorts; the calculation reads trips only "
      "through the connection set). " + _M + "; the metamorphic relation is also run on the implementation with physically deleted trips.",
      "Lean 4 theorem + differential correspondence + metamorphic run on the implementation")
-_reg("C12", "PROOF (partial): Tr.C12_index_transparent_route / Tr.C12_index_transparent_accessibility - the hour index, the one place where absolute hour boundaries (x:00, 24:00, the slots next "
-     "to 0:00 and 32:00: the mechanism this property is anchored in) enter a calculation, is TRANSPARENT: for every dataset, scenario and query with the requested time in [0, 32 h) and "
-     "non-negative router walks, the route / accessibility answer EQUALS the answer of the same calculation with every scan started at the head of the sorted list (Tr.calculateSingle0 / "
-     "Tr.calculateAllNodes0: no index, no hour arithmetic at all). What the index skips leaves before the requested departure resp. arrives after the (requested or chosen) arrival "
-     "(Tr.fwdIndex_spec, Tr.revIndex_spec, all 32 slots incl. the guarded ones), and the first test of a scan step discards such a connection without touching the tables "
-     "(Tr.fwdScan_from_start, Tr.revScan_from_start); the hours handed to the look-ups are re-read from the source (Tr.C07_scan_start). NOT proved: that the index-free calculation commutes "
-     "with a translation of all clock values (every guard compares differences of clock values; the tests against -1 / MAX_INT / 0 need the in-range hypotheses). That half is evaluated as a "
-     "metamorphic relation on the implementation and on the model for generated offsets (hour marks, 24:00, next to 0:00 / 32:00). " + _M + ".",
-     "Lean 4 theorems (hour-index transparency for all calculations) + metamorphic relation on implementation and model")
+_reg("C12", "PROOF (partial, two halves): (1) Tr.C12_index_transparent_route / _accessibility - the hour index, the one place where absolute hour boundaries (x:00, 24:00, the slots next to "
+     "0:00 and 32:00: the mechanism this property is anchored in) enter a calculation, is TRANSPARENT: for every dataset, scenario and query with the requested time in [0, 32 h) and non-negative "
+     "router walks, the route / accessibility answer EQUALS the answer of the same calculation with every scan started at the head of the sorted list (Tr.calculateSingle0 / Tr.calculateAllNodes0: no "
+     "index, no hour arithmetic); what the index skips leaves before the requested departure resp. arrives after the arrival (Tr.fwdIndex_spec, Tr.revIndex_spec, all 32 slots), and the first "
+     "test of a scan step discards such a connection without touching the tables. (2) Where the answer is characterised by a specification, moving every scheduled time and the requested time "
+     "by ANY integer k moves exactly the characterised values by k and keeps the status: Tr.C12_departure - departure-time route queries on the domain of C03/C05: a route is returned on one side "
+     "iff on the other, arrivalTime and departureTime move by exactly k; Tr.C12_arrival - arrival-time queries on the domain of C04: status kept and departureTime moves by exactly k when the "
+     "moved answer still leaves at or after 0:00 (the property's 'both answers stay in range'); Tr.C12_map_departure / Tr.C12_map_arrival - accessibility maps on the domains of C08 / C09: the "
+     "same stops, each time moved by exactly k, same travel times, same stop count. This half does not look at the scans: the inductive specifications are translation invariant (Tr.Reach.shift, "
+     "Tr.RReach.shift, Tr.AdmFwd.shift, Tr.AdmRev.shift; Tr.conns_shift: the connections of the shifted records are the shifted connections) and both answers are optimal among and attained "
+     "by admissible journeys; hypotheses on the shifted side are only 'clock values stay in range' (Tr.ShiftInRange; the structural ones are derived, Tr.wfData_shift etc.). NOT proved: the "
+     "remaining fields of a route answer (steps, durations, counts, arrival time of arrival-time answers), queries outside those domains (active first-waiting cap), status equality for "
+     "accessibility, i.e. full translation invariance of the index-free calculation. Those are evaluated as a metamorphic relation on implementation and model for generated offsets (hour "
+     "marks, 24:00, next to 0:00 / 32:00). " + _M + ".",
+     "Lean 4 theorems (hour-index transparency for all calculations; translation invariance of the characterised values via the specifications) + metamorphic relation on implementation and model")
 _reg("C13", "PROOF (full, over the server model): Tr.C13_history_independent - the answer to a request after any sequence of earlier requests equals the answer of the "
      "initial server, for both cache kinds and whether or not the set was cached; Tr.C13_structure states the source facts it rests on (regenerated: no static state "
      "in the calculation, cache keyed by scenario). Histories are also replayed against the implementation and the model.",
